@@ -1,7 +1,8 @@
 """C01 (and C02: same model) — the interpreter mirror `Interp.Impl` against the source it was written from.
 
 Re-reads src/pytezos/michelson/instructions/*.py, michelson/stack.py, michelson/micheline.py, michelson/types/{core,domain,pair}.py
-on every run (`ast` only) and emits `Generated/C01.lean`:
+on every run (`ast` only) and emits `Generated/C01.lean` (tables and numbers, imported by the model) and
+`Generated/C01Bodies.lean` (the shape digests, imported by Props/C01.lean only):
 
 1. every `dispatch_types(..., mapping={...})` table of the modelled instructions (ADD, SUB, MUL, EDIV, NEG; AND, NOT, the
    table OR / XOR share; the two tables of CONCAT) and the operand classes SIZE / SLICE assert (`assert_type_in` /
@@ -19,6 +20,9 @@ Nothing is guessed: an unrecognised construct gives `none` / `false` and a faile
 """
 import ast
 import copy
+import os
+
+from harness import common
 
 from translator.extract import find_class, find_func, generator, lean_list, lean_str, parse
 
@@ -480,9 +484,14 @@ def gen_c01(status):
             detail = '' if ok else 'body differs from the transcribed one: ' + text[:500]
         status[f'body {key}'] = (ok, detail)
         rec.append(f'({lean_str(key)}, {"true" if ok else "false"})')
-    out.append('/-- per modelled instruction form / helper / method: the normalised source text equals the text the mirror was written from -/')
-    out.append('def bodyRecognised : List (String × Bool) := ' + lean_list(rec))
-    out.append(f'def modelledForms : Nat := {len(FORMS)}')
+    # the digests go to a module of their own (`Generated/C01Bodies.lean`, imported by Props/C01.lean only): an edit of a
+    # body then re-opens `source_bodies_recognised` without rebuilding the model and the proofs that depend on the tables
+    bodies = ('/- GENERATED by translator/c01.py from /repo/src — do not edit -/\nnamespace Generated.C01\n'
+              '/-- per modelled instruction form / helper / method: the normalised source text equals the text the mirror was written from -/\n'
+              'def bodyRecognised : List (String × Bool) := ' + lean_list(rec) + '\n'
+              f'def modelledForms : Nat := {len(FORMS)}\n'
+              'end Generated.C01\n')
+    common.write_if_changed(os.path.join(common.LEAN, 'PytezosModel', 'Generated', 'C01Bodies.lean'), bodies)
     return '\n'.join(out) + '\n'
 
 
